@@ -316,7 +316,9 @@ def json_cases(rng, n, N):
 def http_cases(rng, n, N):
     cases = []
     hpool = ['X-A', 'X-B', 'X-C', 'X-D', 'X-E', 'Accept', 'User-Agent', 'x-lower', 'Cookie', 'Referer', 'X-Trace-Id']
-    qpool = ['a', 'b', 'c', 'd', 'e', 'f', 'page', 'q', '名']
+    # names that differ only in letter case, or repeat: any ordering rule that is not total over the distinct names leaves
+    # their relative order to the map
+    qpool = ['a', 'b', 'c', 'd', 'e', 'f', 'page', 'q', '名', 'A', 'Page', 'PAGE', 'Q', 'tag', 'Tag', 'TAG']
     progs_ = [
         '输入当前请求\n（显示：当前请求之头部之所有索引）\n输出当前请求之头部之所有索引',
         '输入当前请求\n（显示：当前请求之查询参数之所有索引）\n输出当前请求之查询参数之所有值',
